@@ -47,6 +47,28 @@ def _is_this_like(n):
 FX = None      # set by simlib.load_facts: the fact base, for cross-function expansion of expression helpers
 
 
+def _ref_locals(fn):
+    """{did: initialiser} of the locals declared as lvalue references (outside range-for headers)."""
+    rl = getattr(fn, '_ref_locals', None)
+    if rl is None:
+        rl = {}
+        try:
+            for n in fn.all_nodes():
+                if n['k'] != 'decl':
+                    continue
+                for v in n['vars']:
+                    t = (fn.ty(v.get('t')) or '').rstrip()
+                    if t.endswith('&') and not t.endswith('&&') and is_node(v.get('init')):
+                        rl[v['did']] = v['init']
+        except Exception:
+            rl = {}
+        try:
+            fn._ref_locals = rl
+        except Exception:
+            pass
+    return rl
+
+
 SIZE_TYPES = ('std::size_t', 'size_t', 'unsigned long')
 
 
@@ -150,6 +172,11 @@ def render(fn, n, depth=0, names=None):
             al = getattr(fn, 'alias', None)
             if al and n.get('did') in al:
                 return al[n['did']]
+            if n['dk'] == 'local' and depth < 30:
+                # a local REFERENCE is another name for what it was bound to: render the referent
+                rl = _ref_locals(fn)
+                if n.get('did') in rl:
+                    return render(fn, rl[n['did']], depth + 1, names)
             return n['name'].split('::')[-1]
         return n['name']
     if k == 'member':
@@ -1133,3 +1160,54 @@ def edge_must_pass(fn, text, polarity, sites):
         if dst == cfg.exit or cfg.exit in cfg.reach_from(dst, avoid=blocks):
             ok = False
     return ok, len(edges)
+
+
+def flat_nodes(fn, pred, depth=2, _seen=(), _anchor=None, _names=None):
+    """Like flat_calls for arbitrary AST nodes: nodes of fn satisfying pred(owner, node), plus those inside own-object /
+    free repository helpers fn calls. Returns [FlatCall] (`.call` is the node)."""
+    out = [FlatCall(fn, n, _anchor if _anchor is not None else n, _names) for n in fn.all_nodes() if pred(fn, n)]
+    for c, g in _helpers(fn, depth, _seen):
+        out.extend(flat_nodes(g, pred, depth - 1, _seen + (fn.usr,), _anchor if _anchor is not None else c, param_names(fn, c, g, _names)))
+    return out
+
+
+def exit_reachable_under(fn, start, avoid, atom_value):
+    """Can the normal exit be reached from node `start` without passing through a block of `avoid` (nodes), when
+    every two-way branch whose deciding operand has a known truth value (atom_value(atom) -> True/False, None when
+    unknown) is only followed along its feasible edge?  Evaluates a path rule in one abstract state."""
+    cfg = fn.cfg
+    b0 = cfg.node_block(start) if start is not None else cfg.entry      # start=None: from the function entry
+    if b0 is None:
+        return True
+    stop = {cfg.node_block(a) for a in avoid} - {None}
+    if start is None and b0 in stop:
+        return False
+    seen, st = set(), [b0]
+    first = True
+    while st:
+        b = st.pop()
+        if b in seen:
+            continue
+        seen.add(b)
+        if b in stop and not (first and b == b0):
+            continue
+        if b in stop and b == b0:
+            # start and an avoided node share the block: order inside the block decides
+            ps = cfg.node_pos(start)
+            if any(cfg.node_block(a) == b0 and cfg.node_pos(a)[1] >= ps[1] for a in avoid):
+                first = False
+                continue
+        first = False
+        if b == cfg.exit:
+            return True
+        blk = cfg.blocks[b]
+        succ = blk['succ']
+        if blk.get('tc') is not None and len(succ) == 2 and None not in succ:
+            atom, neg = cfg.branch_atom(b)
+            v = atom_value(atom) if is_node(atom) else None
+            if v is not None:
+                taken = v != neg
+                st.append(succ[0] if taken else succ[1])
+                continue
+        st.extend(x for x in succ if x is not None)
+    return False
